@@ -276,6 +276,18 @@ def main_c23(run):
                 else:
                     if body is None:
                         continue
+                    # (an unescaped quote inside: the text is several forms, not one literal)
+                    i_, bare = 0, False
+                    while i_ < len(body):
+                        if body[i_] == "\\":
+                            i_ += 2
+                            continue
+                        if body[i_] == "\"":
+                            bare = True
+                            break
+                        i_ += 1
+                    if bare:
+                        continue
                     py = python_literal(pre, body)
                 if py[0] == "skip":
                     continue
